@@ -7,7 +7,10 @@ builds a real DriftCorrection through its public constructor, calls preprocess a
      pixel (r, c) -> canvas centre + R(theta) (r - rc, c - cc), and the canvas shape with its own axis,
  (2) the coordinates for 1, 2, 3, 4 knots with one another (differential, no expected value),
  (3) the warp weight map sum with rows x cols, for every image of the stack and every warp upsampling,
- (4) for identical images with equal scan directions: align_translation leaves every knot where it was.
+ (4) for identical images with equal scan directions: align_translation leaves every knot where it was,
+ (5) histories on ONE object: preprocess, change the scan directions through the setter, preprocess again
+     (every ordered pair of configurations; thorough: every triple) — the geometry must be that of the
+     last configuration only.
 """
 from __future__ import annotations
 
@@ -145,6 +148,52 @@ def w_fixed_point(item, seed=0):
     return t
 
 
+REPRE = [(0.0, 0.5, 1), (30.0, 0.5, 1), (90.0, 0.5, 2), (200.0, 0.25, 1), (45.0, 0.5, 3), (135.0, 1.0, 1), (30.0, 0.5, 4)]
+
+
+def w_repreprocess(item, seed=0, depth=2):
+    """Histories on ONE DriftCorrection object: preprocess with configuration A, then change the scan directions through
+    the public setter and preprocess again with B (then C): after every step the geometry must be the closed form of
+    the CURRENT configuration (nothing may survive from an earlier preprocess)."""
+    shape, first = tuple(item[0]), item[1]
+    t = Tally()
+    nstack = 2
+    tails = [[b] for b in range(len(REPRE))] if depth == 2 else [[b] for b in range(len(REPRE))] + [[b, c] for b in range(len(REPRE)) for c in range(len(REPRE))]
+    for tail in tails:
+        hist = [first] + tail
+        DC = _dc()
+        ims = [make_image(shape, seed, k) for k in range(nstack)]
+        with warnings.catch_warnings():
+            warnings.simplefilter("ignore")
+            dc = None
+            for step, ci in enumerate(hist):
+                ang, pad, knots = REPRE[ci]
+                angles = [(ang + 90.0 * k) % 360.0 for k in range(nstack)]
+                if dc is None:
+                    dc = DC.from_data([im.copy() for im in ims], list(angles))
+                else:
+                    dc.scan_direction_degrees = list(angles)
+                dc.preprocess(pad_fraction=pad, number_knots=knots, kde_sigma=0.5, pad_value="mean")
+        case = {"part": "repreprocess", "shape": list(shape), "history": [list(REPRE[c]) for c in hist]}
+        canvas = tuple(int(v) for v in dc.shape[1:])
+        worst = 0.0
+        for i in range(nstack):
+            xa, ya = dc.interpolator[i].transform_coordinates(dc.knots[i])
+            ox, oy = closed_form(shape, canvas, angles[i])
+            e = max(float(np.abs(np.asarray(xa) - ox).max()), float(np.abs(np.asarray(ya) - oy).max())) if np.shape(xa) == ox.shape else np.inf
+            worst = max(worst, e)
+            wsum = float(np.asarray(dc.weights_warped.array[i], dtype=np.float64).sum())
+            if abs(wsum - shape[0] * shape[1]) / (shape[0] * shape[1]) > TOL_WEIGHT:
+                t.fail({"relation": "weight_map_sums_to_pixel_count", "after_history": True}, case, f"after the history {case['history']} the weight map sums to {wsum:.5f} for {shape[0] * shape[1]} pixels")
+        want_canvas = tuple(int(np.round(n * (1 + pad) / 2) * 2) for n in shape)
+        t.case(key=case, nontrivial=len(set(hist)) > 1, outcome=[round(worst, 9), list(canvas)])
+        if canvas != want_canvas:
+            t.fail({"relation": "canvas_axis_from_own_axis", "after_history": True}, case, f"after the history {case['history']} the canvas is {canvas}, expected {want_canvas}")
+        if worst > TOL_GEOM:
+            t.fail({"relation": "coordinates_equal_closed_form", "after_history": True, "knots": knots}, case, f"shape={shape}: after preprocess histories {case['history']} (same object, scan directions changed through the setter) the coordinates differ from the closed form of the last configuration by {worst:.3g} px")
+    return t
+
+
 def run(ctx):
     q = ctx.quick
     ctx.assume(
@@ -166,16 +215,23 @@ def run(ctx):
     ctx.coverage["bounds"] = {"shapes": [list(s) for s in shapes], "stacks": stacks, "angles_deg": ANGLES, "pads": pads, "knots": [1, 2, 3, 4], "kde_sigma": sigmas, "warp_upsampling": [1, 2]}
     ctx.pmap(w_geometry, list(itertools.product(shapes, stacks, ANGLES, pads, sigmas)), label="geometry/weights", seed=ctx.seed)
     fp_angles = [0.0, 30.0, 90.0, 200.0] if q else ANGLES[::2]
-    fp_up = [1, 2, 8] if q else [1, 2, 3, 8]
+    fp_up = [1, 2, 3, 8] if q else [1, 2, 3, 5, 8, 16]  # odd factors matter: ceil(1.5*up) != floor(1.5*up) only there
     fp_knots = [1, 2] if q else [1, 2, 3, 4]
     ctx.coverage["bounds"]["fixed_point"] = {"angles": fp_angles, "align_upsample": fp_up, "knots": fp_knots}
     ctx.pmap(w_fixed_point, list(itertools.product(shapes, stacks, fp_angles, [0.5], fp_knots, fp_up)), label="translation fixed point", seed=ctx.seed)
+    rp_shapes = [(7, 9)] if q else [(7, 9), (8, 8), (10, 6)]
+    ctx.coverage["bounds"]["repreprocess"] = {"configs": [list(c) for c in REPRE], "depth": 2 if q else 3, "shapes": [list(x) for x in rp_shapes]}
+    ctx.pmap(w_repreprocess, [(sh, a) for sh in rp_shapes for a in range(len(REPRE))], chunk=1, label="re-preprocess histories on one object", seed=ctx.seed, depth=2 if q else 3)
     if len(ctx.tally.outcomes) < 20:
         raise Broken("geometry did not vary across the lattice")
 
 
 def replay(ctx, case):
-    if case.get("part") == "fixed_point":
+    if case.get("part") == "repreprocess":
+        idx = [REPRE.index(tuple(c)) for c in case["history"]]
+        t = w_repreprocess((case["shape"], idx[0]), seed=ctx.seed, depth=len(idx))
+        t.fails = [f for f in t.fails if f["case"].get("history") == case["history"]]
+    elif case.get("part") == "fixed_point":
         t = w_fixed_point((case["shape"], case["stack"], case["angle"], case["pad"], case["knots"], case["upsample"]), seed=ctx.seed)
     else:
         t = w_geometry((case["shape"], case["stack"], case["angle"], case["pad"], case["sigma"]), seed=ctx.seed)
